@@ -78,6 +78,14 @@ def discharge(obl, timeout_ms=10000, want_model=True, use_cvc5=True):
         r = s.check()
         return s, r
 
+    if is_canary:
+        # vacuity canary: only an `unsat` answer matters; a short single attempt is enough
+        s, r = run(tmo=min(timeout_ms, 1500))
+        dt = time.time() - t0
+        common = dict(kind=obl.kind, props=obl.props, line=obl.line, path=obl.path, size=size, meta=obl.meta)
+        if r == z3.unsat:
+            return Result(obl.name, "canary-vacuous", "z3", dt, reason="hypotheses are contradictory", **common)
+        return Result(obl.name, "canary-ok", "z3", dt, **common)
     # staged: a short default attempt, then the nonlinear tactic (each wins on some goals), then cvc5, then the
     # default solver with the full budget
     s, r = run(tmo=max(500, timeout_ms // 5))
